@@ -52,19 +52,19 @@ theorem too_long_status : facts13.statusPlain .tooLong = 413 := by decide
 /-- no exception escapes the callable, whatever the request, configuration, stream and abort point -/
 theorem never_crashes (cfg : Cfg) (req : Req) (stream : List Nat) (abort : Option Nat) :
     ∀ e ∈ handle facts13 cfg req stream abort, isCrash e = false := by
-  obtain ⟨pre, o, h, _, _⟩ := handle_answered facts13 cfg req stream abort facts_good
+  obtain ⟨pre, o, h, _, _, _⟩ := handle_answered facts13 cfg req stream abort facts_good
   exact h.no_crash
 
 /-- `start_response` is called exactly once -/
 theorem start_response_exactly_once (cfg : Cfg) (req : Req) (stream : List Nat) (abort : Option Nat) :
     List.countP isStart (handle facts13 cfg req stream abort) = 1 := by
-  obtain ⟨pre, o, h, _, _⟩ := handle_answered facts13 cfg req stream abort facts_good
+  obtain ⟨pre, o, h, _, _, _⟩ := handle_answered facts13 cfg req stream abort facts_good
   exact h.start_once
 
 /-- ... and before any body chunk -/
 theorem start_response_before_body (cfg : Cfg) (req : Req) (stream : List Nat) (abort : Option Nat) :
     noneBefore isChunk isStart (handle facts13 cfg req stream abort) = true := by
-  obtain ⟨pre, o, h, _, _⟩ := handle_answered facts13 cfg req stream abort facts_good
+  obtain ⟨pre, o, h, _, _, _⟩ := handle_answered facts13 cfg req stream abort facts_good
   exact h.start_before_chunks
 
 /-- the status is a three-digit code: it is one of the built-in ones (previous section) or one the
@@ -73,17 +73,18 @@ theorem status_line (cfg : Cfg) (req : Req) (stream : List Nat) (abort : Option 
     (hp : ∀ p ∈ req.presets, 100 ≤ p ∧ p ≤ 599)
     (s : Nat) (f : Option FaultClass) (c : Option Nat)
     (hm : Ev.startResponse s f c ∈ handle facts13 cfg req stream abort) : 100 ≤ s ∧ s ≤ 599 := by
-  obtain ⟨pre, o, h, hr, hw⟩ := handle_answered facts13 cfg req stream abort facts_good
+  obtain ⟨pre, o, h, hl, hr, hw⟩ := handle_answered facts13 cfg req stream abort facts_good
   have hs : s = o.status := h.start_of s f c hm
   subst hs
   cases hwk : req.wsdl with
   | some k =>
     obtain ⟨_, rfl⟩ := hw k hwk
     have := builtin_statuses_are_three_digit .client
-    cases k <;> simp only [wsdlOut] <;> omega
+    cases k <;> simp only [wsdlOut, atServer] <;> omega
   | none =>
-    obtain ⟨_, ho, _, _⟩ := hr hwk
-    rcases process_status facts13 cfg req stream o ho with ⟨fc, h1⟩ | ⟨fc, h1⟩ | h1 | h1 | h1
+    obtain ⟨_, ⟨o', ho, rfl⟩, _, _⟩ := hr hwk
+    show 100 ≤ o'.status ∧ o'.status ≤ 599
+    rcases process_status facts13 cfg req stream o' ho with ⟨fc, h1⟩ | ⟨fc, h1⟩ | h1 | h1 | h1
     · rw [h1]; exact (builtin_statuses_are_three_digit fc).1
     · rw [h1]; exact (builtin_statuses_are_three_digit fc).2.1
     · rw [h1]; exact (builtin_statuses_are_three_digit .client).2.2.1
@@ -93,13 +94,13 @@ theorem status_line (cfg : Cfg) (req : Req) (stream : List Nat) (abort : Option 
 /-- all body chunks are bytes (the ?wsdl error answers included) -/
 theorem body_chunks_are_bytes (cfg : Cfg) (req : Req) (stream : List Nat) (abort : Option Nat)
     (n : Nat) (b : Bool) (hm : Ev.chunk n b ∈ handle facts13 cfg req stream abort) : b = true := by
-  obtain ⟨pre, o, h, hr, hw⟩ := handle_answered facts13 cfg req stream abort facts_good
+  obtain ⟨pre, o, h, hl, hr, hw⟩ := handle_answered facts13 cfg req stream abort facts_good
   have hc := h.chunks_of n b hm
   cases hwk : req.wsdl with
   | some k =>
     obtain ⟨_, rfl⟩ := hw k hwk
     have hb : facts13.wsdlErrBytes = true := by decide
-    cases k <;> simp [wsdlOut, hb] at hc <;> exact hc.2
+    cases k <;> simp [wsdlOut, atServer, hb] at hc <;> exact hc.2
   | none => exact (hr hwk).2.2.2 _ hc
 
 /-- a Content-Length header, when sent, equals the number of body bytes: the delivered bytes never
@@ -110,7 +111,7 @@ theorem content_length_exact (cfg : Cfg) (req : Req) (stream : List Nat) (abort 
     (hm : Ev.startResponse s f (some n) ∈ handle facts13 cfg req stream abort) :
     bodyBytes (handle facts13 cfg req stream abort) ≤ n ∧
     (abort = none → bodyBytes (handle facts13 cfg req stream abort) = n) := by
-  obtain ⟨pre, o, h, _, _⟩ := handle_answered facts13 cfg req stream abort facts_good
+  obtain ⟨pre, o, h, _, _, _⟩ := handle_answered facts13 cfg req stream abort facts_good
   exact h.content_length s f n hm
 
 /-- what a `wsgi_return` listener put in place of the outgoing stream is what the transport joins,
@@ -126,7 +127,7 @@ theorem rewritten_fault_is_measured (req : Req) (preset : Option Nat) (fc : Faul
     (h : req.onException = some w) :
     ∃ o, errorOut facts13 req preset fc = .out o ∧ o.cl = some (sum w) ∧ o.chunks = w.map (fun n => (n, true)) := by
   have hb : facts13.errorEventBeforeLength = true := by decide
-  exact ⟨_, rfl, by simp [errLen, errBody, h, hb], by simp [errBody, h]⟩
+  exact ⟨_, rfl, by simp [errLen, errMeasured, h, hb], by simp [errBody, h]⟩
 
 /-- why the two event facts matter (any `F`): with `wsgi_return` fired after the length computation a
     listener that changes the size of the stream makes the announced length wrong -/
@@ -138,25 +139,27 @@ theorem return_event_after_length_breaks_content_length (F : Facts13)
    { wsdl := none, soapOut := false, soapIn := false, preReject := false, readsBody := false,
      contentLength := none, docLen := 0, faultLen := 9,
      intended := .success ⟨none, .notGen, false, [5], true⟩, onReturn := some ⟨[2], true⟩, onException := none,
-     aux := .none, auxOnErrors := false, userHeaders := [] },
+     aux := .none, auxOnErrors := false, userHeaders := [],
+     closeListener := .none, serverSkipsClose := false, faultBody := none, faultIter := .list },
    5, by simp [handle, process, intendedResult, afterUser, withAux, withReturnListener, successOut, hb, ht, hj, finish,
-     deliver, auxEvs, hdrEvs, hdrEvsFrom, sum, chunkEvs, taken, finalEvs, bodyBytes]⟩
+     deliver, auxEvs, hdrEvs, hdrEvsFrom, sum, chunkEvs, taken, finalEvs, finalOnce, finalRaises, rpcFinal,
+     Result.atServer, atServer, bodyBytes]⟩
 
 /-- with `chunked=False` every rpc answer carries a Content-Length -/
 theorem unchunked_sends_content_length (cfg : Cfg) (req : Req) (stream : List Nat) (abort : Option Nat)
     (hc : cfg.chunked = false) (hw : req.wsdl = none) :
     ∃ s f n, Ev.startResponse s f (some n) ∈ handle facts13 cfg req stream abort := by
-  obtain ⟨pre, o, h, hr, _⟩ := handle_answered facts13 cfg req stream abort facts_good
-  obtain ⟨_, ho, _, _⟩ := hr hw
-  obtain ⟨n, hn⟩ := process_unchunked_cl facts13 cfg req stream o facts_good hc ho
-  refine ⟨o.status, o.fault, n, ?_⟩
-  rw [h.eq, deliver_after _ _ h.timing h.noEscape, hn]
-  simp
+  obtain ⟨pre, o, h, hl, hr, _⟩ := handle_answered facts13 cfg req stream abort facts_good
+  obtain ⟨_, ⟨o', ho, rfl⟩, _, _⟩ := hr hw
+  obtain ⟨n, hn⟩ := process_unchunked_cl facts13 cfg req stream o' facts_good hc ho
+  refine ⟨o'.status, o'.fault, n, ?_⟩
+  rw [h.eq, deliver_after _ _ h.timing h.noEscape h.once]
+  simp [atServer, hn]
 
 /-- a server that stops after `k` chunks is handed at most `k` chunks -/
 theorem abort_respected (cfg : Cfg) (req : Req) (stream : List Nat) (k : Nat) :
     List.countP isChunk (handle facts13 cfg req stream (some k)) ≤ k := by
-  obtain ⟨pre, o, h, _, _⟩ := handle_answered facts13 cfg req stream (some k) facts_good
+  obtain ⟨pre, o, h, _, _, _⟩ := handle_answered facts13 cfg req stream (some k) facts_good
   exact h.abort_respected k
 
 /-- "string headers": every `(name, value)` pair given to `start_response` that stems from a header the
@@ -185,7 +188,7 @@ theorem aux_runs_between_start_response_and_handover (cfg : Cfg) (req : Req) (st
     List.countP isAux (handle facts13 cfg req stream abort) ≤ 1 ∧
     noneBefore isAux isStart (handle facts13 cfg req stream abort) = true ∧
     noneAfter isAux isReturned (handle facts13 cfg req stream abort) = true := by
-  obtain ⟨pre, o, h, _, _⟩ := handle_answered facts13 cfg req stream abort facts_good
+  obtain ⟨pre, o, h, _, _, _⟩ := handle_answered facts13 cfg req stream abort facts_good
   exact h.aux_between
 
 /-- why the guard facts matter (any `F`): with a guard that lets a non-Fault exception through, an
@@ -199,9 +202,10 @@ theorem aux_guard_that_is_not_catch_all_breaks_the_response (F : Facts13) (hg : 
    { wsdl := none, soapOut := false, soapIn := false, preReject := false, readsBody := false,
      contentLength := none, docLen := 0, faultLen := 9,
      intended := .success ⟨none, .notGen, false, [5], true⟩, onReturn := none, onException := none,
-     aux := .serFail, auxOnErrors := false, userHeaders := [] },
+     aux := .serFail, auxOnErrors := false, userHeaders := [],
+     closeListener := .none, serverSkipsClose := false, faultBody := none, faultIter := .list },
    by simp [handle, process, intendedResult, afterUser, withAux, withReturnListener, successOut, hg, hj, finish,
-     deliver, auxEvs, hdrEvs, hdrEvsFrom, sum]⟩
+     deliver, auxEvs, hdrEvs, hdrEvsFrom, sum, Result.atServer, atServer]⟩
 
 /-! ### the request-size limit -/
 
@@ -257,12 +261,14 @@ theorem too_long_refused_partial (cfg : Cfg) (req : Req) (stream : List Nat) (ab
     (hw : req.wsdl = none) (hp : req.preReject = false) (hb : req.readsBody = true)
     (hd : declaredLength cfg req.contentLength = some d) (h : d > (cfg.maxLen : Int)) :
     handle facts13 cfg req stream abort =
-      .startResponse (faultStatus facts13 req .tooLong) (some .tooLong) (some (sum (errBody req))) :: .returned ::
-        (chunkEvs (taken abort ((errBody req).map (fun n => (n, true)))) ++ [.ctxClosed, .wsgiClose]) := by
+      .startResponse (faultStatus facts13 req .tooLong) (some .tooLong) (some (sum (errMeasured req))) :: .returned ::
+        (chunkEvs (taken abort ((errMeasured req).map (fun n => (n, true)))) ++ rpcFinal req.closeListener) := by
   have ht : facts13.closeTiming = .afterBody := by decide
   have he : facts13.errorEventBeforeLength = true := by decide
+  have hf : facts13.finalizeClearedFirst = true := by decide
+  have hm := errBody_eq_measured facts13 req (Good.errMat facts_good)
   simp [handle, hw, process_declared_over facts13 cfg req stream d hp hb hd h, finish, errorOut, deliver, ht,
-    finalEvs, errLen, he, hdrEvs, auxEvs]
+    finalEvs, finalOnce, errLen, he, hf, hm, hdrEvs, auxEvs, Result.atServer, atServer]
 
 /-- consequence: no read, no user code -/
 theorem too_long_reads_nothing_runs_nothing (cfg : Cfg) (req : Req) (stream : List Nat) (abort : Option Nat) (d : Int)
@@ -272,13 +278,14 @@ theorem too_long_reads_nothing_runs_nothing (cfg : Cfg) (req : Req) (stream : Li
   rw [too_long_refused_partial cfg req stream abort d hw hp hb hd h]
   intro e he
   simp only [List.mem_cons, List.mem_append] at he
-  rcases he with rfl | rfl | he | rfl | rfl | he
+  rcases he with rfl | rfl | he | he
   · exact ⟨rfl, rfl⟩
   · exact ⟨rfl, rfl⟩
   · obtain ⟨n, b, rfl, _⟩ := mem_chunkEvs he; exact ⟨rfl, rfl⟩
-  · exact ⟨rfl, rfl⟩
-  · exact ⟨rfl, rfl⟩
-  · cases he
+  · cases hl : req.closeListener <;> simp [hl, rpcFinal] at he <;>
+      first
+        | (rcases he with rfl | rfl | rfl <;> exact ⟨rfl, rfl⟩)
+        | (rcases he with rfl | rfl <;> exact ⟨rfl, rfl⟩)
 
 /-- witness that the full refusal clause fails: no CONTENT_LENGTH, 15 bytes on the stream, a limit of
     10 bytes, a 10-byte document — the first 10 bytes are read and the user function runs -/
@@ -290,7 +297,8 @@ theorem undeclared_overlong_body_is_truncated :
    { wsdl := none, soapOut := false, soapIn := false, preReject := false, readsBody := true,
      contentLength := none, docLen := 10, faultLen := 50,
      intended := .success ⟨none, .notGen, false, [4], true⟩, onReturn := none, onException := none,
-     aux := .none, auxOnErrors := false, userHeaders := [] },
+     aux := .none, auxOnErrors := false, userHeaders := [],
+     closeListener := .none, serverSkipsClose := false, faultBody := none, faultIter := .list },
    [15], by decide⟩
 
 /-- the user function is entered only for a document that calls it, at most once, and — when the
@@ -335,33 +343,74 @@ theorem context_closed_once_after_body (cfg : Cfg) (req : Req) (stream : List Na
     List.countP isClosed (handle facts13 cfg req stream abort) = 1 ∧
     noneAfter isChunk isClosed (handle facts13 cfg req stream abort) = true ∧
     noneBefore isClosed isReturned (handle facts13 cfg req stream abort) = true := by
-  obtain ⟨pre, o, h, hr, hw⟩ := handle_answered facts13 cfg req stream abort facts_good
+  obtain ⟨pre, o, h, hl, hr, hw⟩ := handle_answered facts13 cfg req stream abort facts_good
   apply h.closed_once
   cases hwk : req.wsdl with
   | some k =>
     obtain ⟨_, rfl⟩ := hw k hwk
     have hb : facts13.wsdlErrClosed = true := by decide
-    cases k <;> simp [wsdlOut, hb]
+    cases k <;> simp [wsdlOut, atServer, hb]
   | none => rw [(hr hwk).2.2.1]; simp
 
-/-- the `wsgi_close` event of an rpc request fires exactly once, after the body -/
+/-- the `wsgi_close` event of an rpc request fires exactly once, after the body, whatever the listeners
+    on it do and however the server consumes the body; it is skipped only when a
+    `method_context_closed` listener raised, which ends the finalizer before it gets there -/
 theorem wsgi_close_once_after_body (cfg : Cfg) (req : Req) (stream : List Nat) (abort : Option Nat)
     (hw : req.wsdl = none) :
-    List.countP isWsgiClose (handle facts13 cfg req stream abort) = 1 ∧
+    List.countP isWsgiClose (handle facts13 cfg req stream abort) =
+      (if req.closeListener = .ctxClosedRaises then 0 else 1) ∧
     noneAfter isChunk isWsgiClose (handle facts13 cfg req stream abort) = true := by
-  obtain ⟨pre, o, h, hr, _⟩ := handle_answered facts13 cfg req stream abort facts_good
+  obtain ⟨pre, o, h, hl, hr, _⟩ := handle_answered facts13 cfg req stream abort facts_good
+  rw [← hl]
   exact h.wsgi_close_once (hr hw).2.2.1
+
+/-- the exception of a raising `method_context_closed` / `wsgi_close` listener reaches the server at
+    most once (out of `next()` at the end of the body or out of `close()`), and only after the context
+    was closed: the finalizer is never run a second time -/
+theorem listener_exception_surfaces_once (cfg : Cfg) (req : Req) (stream : List Nat) (abort : Option Nat) :
+    List.countP isLraise (handle facts13 cfg req stream abort) ≤ 1 ∧
+    noneBefore isLraise isClosed (handle facts13 cfg req stream abort) = true := by
+  obtain ⟨pre, o, h, _, _, _⟩ := handle_answered facts13 cfg req stream abort facts_good
+  exact h.lraise_once
+
+/-- why `finalizeClearedFirst` matters (any `F`): if `_ResponseBody.close` clears the finalizer only after
+    it returned, a raising listener makes the server's `close()` close the context a second time -/
+theorem finalizer_not_cleared_first_closes_twice (F : Facts13) (hf : F.finalizeClearedFirst = false)
+    (ht : F.closeTiming = .afterBody) (hj : F.joinKind = .bytes) (hr : F.returnEventBeforeLength = true) :
+    ∃ (cfg : Cfg) (req : Req), List.countP isClosed (handle F cfg req [] none) = 2 :=
+  ⟨⟨false, 100, 7⟩,
+   { wsdl := none, soapOut := false, soapIn := false, preReject := false, readsBody := false,
+     contentLength := none, docLen := 0, faultLen := 9,
+     intended := .success ⟨none, .notGen, false, [5], true⟩, onReturn := none, onException := none,
+     aux := .none, auxOnErrors := false, userHeaders := [],
+     closeListener := .ctxClosedRaises, serverSkipsClose := false, faultBody := none, faultIter := .list },
+   by simp [handle, process, intendedResult, afterUser, withAux, withReturnListener, successOut, hf, ht, hj, hr, finish,
+     deliver, auxEvs, hdrEvs, hdrEvsFrom, sum, Result.atServer, atServer, finalEvs, finalOnce, finalAgain, finalRaises,
+     exhausted, rpcFinal, chunkEvs, taken, isClosed, List.countP_cons]⟩
+
+/-- the fault body is turned into a list before it is measured: what `handle_error` measures is what it
+    sends, for a list, a generator (JsonDocument) and any other one-shot iterator (JsonP's
+    `itertools.chain`, a user-supplied `iter(...)` / `map`) -/
+theorem fault_body_is_materialised (req : Req) : errBody facts13 req = errMeasured req :=
+  errBody_eq_measured facts13 req (Good.errMat facts_good)
+
+/-- why the materialisation facts matter (any `F`): summing the lengths of a one-shot iterator uses it
+    up — the announced length is that of the fault document, the body is empty -/
+theorem unmaterialised_fault_body_is_lost (F : Facts13) (hi : F.errMaterialisesIterator = false)
+    (req : Req) (h1 : req.onException = none) (h2 : req.faultIter = .iterator) :
+    errBody F req = [] ∧ errMeasured req = errBody0 req := by
+  simp [errBody, errMeasured, errMaterialised, h1, h2, hi]
 
 /-- `?wsdl`: the exact trace of the three outcomes, fully consumed -/
 theorem wsdl_conformance (cfg : Cfg) (req : Req) (stream : List Nat) (len : Nat) :
     (req.wsdl = some (.ok len) → handle facts13 cfg req stream none =
-      [.startResponse 200 none (some len), .returned, .chunk len true, .ctxClosed]) ∧
+      [.startResponse 200 none (some len), .returned, .chunk len true] ++ wsdlFinal req.closeListener) ∧
     (req.wsdl = some .unavailable → handle facts13 cfg req stream none =
-      [.startResponse 404 none none, .returned, .chunk 13 true, .ctxClosed]) ∧
+      [.startResponse 404 none none, .returned, .chunk 13 true] ++ wsdlFinal req.closeListener) ∧
     (req.wsdl = some .buildError → handle facts13 cfg req stream none =
-      [.startResponse 500 none none, .returned, .chunk 25 true, .ctxClosed]) := by
+      [.startResponse 500 none none, .returned, .chunk 25 true] ++ wsdlFinal req.closeListener) := by
   refine ⟨?_, ?_, ?_⟩ <;> intro h <;>
-    simp [handle, h, deliver, wsdlOut, facts13, chunkEvs, taken, finalEvs, auxEvs]
+    simp [handle, h, deliver, wsdlOut, atServer, facts13, chunkEvs, taken, finalEvs, finalOnce, auxEvs]
 
 /-! ### non-vacuity: the hypotheses above are satisfiable and the model is not trivial -/
 
@@ -370,7 +419,8 @@ def exReq : Req :=
   { wsdl := none, soapOut := false, soapIn := false, preReject := false, readsBody := true,
     contentLength := some "20".toList, docLen := 20, faultLen := 30,
     intended := .success ⟨none, .yields, false, [1, 2, 3], true⟩, onReturn := none, onException := none,
-     aux := .none, auxOnErrors := false, userHeaders := [] }
+     aux := .none, auxOnErrors := false, userHeaders := [],
+     closeListener := .none, serverSkipsClose := false, faultBody := none, faultIter := .list }
 
 example : handle facts13 exCfg exReq [5, 100, 100, 100] (some 2) =
     [.read 7 5, .read 7 7, .read 7 7, .read 1 1, .user, .startResponse 200 none (some 6), .returned,
@@ -404,6 +454,15 @@ example : handle facts13 exCfg { exReq with intended := .userFault .client none,
      .ctxClosed, .wsgiClose] := by decide +kernel
 example : Ev.aux ∉ handle facts13 exCfg { exReq with intended := .userFault .client none, aux := .ok } [100, 100, 100] none := by
   decide +kernel
+-- a `wsgi_close` listener that raises: the server sees it once, the context is closed once
+example : handle facts13 exCfg { exReq with closeListener := .wsgiCloseRaises } [100, 100, 100] none =
+    [.read 7 7, .read 7 7, .read 6 6, .user, .startResponse 200 none (some 6), .returned, .chunk 1 true, .chunk 2 true,
+     .chunk 3 true, .ctxClosed, .wsgiClose, .lraise] := by decide +kernel
+-- a JsonP-like fault document (4 chunks in a one-shot iterator) is sent whole
+example : handle facts13 exCfg { exReq with intended := .validationError, faultBody := some [2, 1, 60, 2], faultIter := .iterator }
+      [100, 100, 100] none =
+    [.read 7 7, .read 7 7, .read 6 6, .startResponse 400 (some .client) (some 65), .returned, .chunk 2 true, .chunk 1 true,
+     .chunk 60 true, .chunk 2 true, .ctxClosed, .wsgiClose] := by decide +kernel
 -- a non-numeric CONTENT_LENGTH is a Client fault
 example : handle facts13 exCfg { exReq with contentLength := some "abc".toList } [200] none =
     [.startResponse 400 (some .client) (some 30), .returned, .chunk 30 true, .ctxClosed, .wsgiClose] := by
